@@ -300,7 +300,7 @@ func (down *rtpDownTrack) Write(buf []byte) (int, error) {
 	buf2 := ibuf2.([]byte)
 
 	n := copy(buf2, buf)
-	err = codecs.RewritePacket(codec, buf2[:n], setMarker, newseqno, piddelta)
+	err = codecs.RewritePacket(codec, buf2[:n], setMarker, newseqno, -piddelta)
 	if err != nil {
 		return 0, err
 	}
